@@ -49,8 +49,10 @@ FAULTS_V3 = [("connect", "refuse"), ("connect", "hang"), ("connect", "accept-rst
              ("data", "drop"), ("data", "wedge"), ("data", "error"), ("data", "garbage"), ("data", "fin"), ("data", "rst"), ("data", "cancel"),
              ("data", "error-wedge"), ("data", "garbage-wedge"), ("data", "cancel-wedge"),
              # not faults of the exchange itself: the unit answers and closes the connection at once (one request per connection)
-             ("data", "answer-fin"), ("data", "answer-rst")]
-BENIGN = ("answer-fin", "answer-rst")
+             ("data", "answer-fin"), ("data", "answer-rst"),
+             # ... or closes the idle connection between two exchanges (the exchange that follows must simply work)
+             ("idle", "idle-fin"), ("idle", "idle-rst")]
+BENIGN = ("answer-fin", "answer-rst", "idle-fin", "idle-rst")
 FAULTS_V2 = [f for f in FAULTS_V3 if f[0] != "handshake"]
 
 
@@ -234,7 +236,9 @@ def _retry(ctx, case):
             if outcome[0] != "ok":
                 ctx.violation("timeout-before-budget-exhausted", f"outcome {outcome[0]} although a response arrived at {A}s < {2 * r}s", one, {"delays": delays})
                 bad = True
-            elif abs(dt - A) > 1e-6:
+            elif dt < A - 1e-6 or dt > A + 1.0:
+                # the statement bounds retransmission, not the instant send() returns: what it does once the response is there
+                # (return at once, collect trailing responses for a moment) is its business - within half the retransmission spacing
                 ctx.violation("return-instant", f"send returned after {dt:.3f}s, response arrived at {A:.3f}s", one)
                 bad = True
         else:
@@ -304,6 +308,7 @@ def _faults(ctx, case):
             if st["fault"] in BENIGN:
                 return [(0, p) for p in packets] + [(0, st["fault"][7:])]
             return fault_actions(conn, "data")
+        st["genuine"] = st.get("genuine", 0) + 1          # the unit answered this request properly
         return None
 
     def on_handshake(conn, ok, reply, info):
@@ -364,10 +369,17 @@ def _faults(ctx, case):
         log.append(("initial",) + await exchange(loop, ac, lan, q))
         for phase, fault in case["seq"]:
             await asyncio.sleep(0.11)
+            if phase == "idle":
+                for c in dev.conns:
+                    if not c.closed:
+                        c.emit([(0, fault[5:])])
+                await asyncio.sleep(0.05)
             if phase in ("connect", "handshake"):
                 await close_quietly()          # force the next exchange to reconnect (and re-handshake on V3)
             _arm(dev, st, phase, fault)
-            log.append((f"{phase}/{fault}",) + await exchange(loop, ac, lan, q))
+            g0 = st.get("genuine", 0)
+            res = await exchange(loop, ac, lan, q)
+            log.append((f"{phase}/{fault}",) + res + (st.get("genuine", 0) - g0,))
             st.update(armed=False, cancel=False)
             dev.connect_script = []
         await asyncio.sleep(0.11)
@@ -410,6 +422,11 @@ def _faults(ctx, case):
             if e[1].startswith("exc:") and e[1] != "exc:CancelledError":
                 ctx.violation(f"device-call-raises/{e[1][4:]}", f"refresh() raised {e[1][4:]} under fault {e[0]}", case, {"log": log})
             elif e[1] == "returned" and e[2] is True:
+                if len(e) > 3 and e[3] > 0:
+                    # the fault hit one attempt, a further attempt of the same call (reconnect, retransmission) was answered by the
+                    # unit: the call legitimately succeeded
+                    ctx.bump("fault-step-answered-after-all (online legitimately)")
+                    continue
                 ctx.violation("online-after-failed-exchange", f"refresh() under fault {e[0]} reports online=True", case, {"log": log})
 
 
